@@ -86,9 +86,9 @@ func compare(src string, ref gcref.Transcript) string {
 	case o.otherErr != "":
 		return "Run returned an unexpected error: " + o.otherErr
 	}
-	if o.out != ref.Out && ev.IsKnown("C01-slice-bounds-message") && o.out == reSliceDetail.ReplaceAllString(ref.Out, "slice bounds out of range") {
-		// the only difference is the detail of a slice-bounds message printed by the program itself
-		ev.Known("C01-slice-bounds-message")
+	// message details covered by recorded findings are normalised on both sides; a hit is counted
+	if o.out != ref.Out && normalise(o.out) == normalise(ref.Out) {
+		countMessageFindings(o.out, ref.Out)
 		ref.Out = o.out
 	}
 	if o.out != ref.Out {
@@ -98,6 +98,10 @@ func compare(src string, ref gcref.Transcript) string {
 	if (o.panicText != "") != (ref.Panic != "") {
 		lastClass = "outcome"
 		return fmt.Sprintf("final outcome differs: gc panic=%q, scriggo panic=%q", ref.Panic, o.panicText)
+	}
+	if o.panicText != ref.Panic && normalise(o.panicText) == normalise(ref.Panic) {
+		countMessageFindings(o.panicText, ref.Panic)
+		return ""
 	}
 	if o.panicText != ref.Panic {
 		lastClass = "panic-message"
@@ -177,6 +181,27 @@ func classify(src, msg string) string {
 }
 
 var reSliceDetail = regexp.MustCompile(`slice bounds out of range \[[^\]\n]*\]( with (length|capacity) [0-9]+)?`)
+
+func normalise(s string) string {
+	if ev.IsKnown("C01-slice-bounds-message") {
+		s = reSliceDetail.ReplaceAllString(s, "slice bounds out of range")
+	}
+	if ev.IsKnown("C01-negative-index-message") {
+		s = reNegIndex.ReplaceAllString(s, "$1")
+	}
+	return s
+}
+
+func countMessageFindings(a, b string) {
+	if reSliceDetail.MatchString(a + b) {
+		ev.Known("C01-slice-bounds-message")
+	}
+	if reNegIndex.MatchString(a + b) {
+		ev.Known("C01-negative-index-message")
+	}
+}
+
+var reNegIndex = regexp.MustCompile(`(index out of range \[-[0-9]+\]) with length [0-9]+`)
 
 var reFloatDivZero = regexp.MustCompile(`/ \(*float(32|64)\(0\)`)
 
